@@ -28,3 +28,6 @@ CHECKS["C17"] = check_assemble.run
 
 import check_text
 CHECKS["C11"] = check_text.run
+
+import check_unicode
+CHECKS["C10"] = check_unicode.run
